@@ -124,6 +124,7 @@ structure SSt where
   samples : Array String := #[]
   /-- previous case and its full implementation output, for the repeated-run comparison -/
   prevRaw : String := ""
+  firstOut : Std.HashMap String (UInt64 × String) := {}
   prevOut : String := ""
   distinct : Std.HashMap String Unit := {}
   specBudget : Nat := 0
@@ -373,6 +374,14 @@ def finishCase (s : SSt) (rline : String) : SSt := Id.run do
     s := { s with stats := { s.stats with repeats := s.stats.repeats + 1 } }
     if implOut != s.prevOut then
       s := s.report "spec" "C16" "repeated-run-differs" s!"first=[{s.prevOut.take 300}] second=[{implOut.take 300}]"
+  else if c.cache != "keep" then
+    -- … also when other searches ran in between (the first run of every fresh case of this stream is remembered by a digest)
+    match s.firstOut[c.raw]? with
+    | some (h, head) =>
+      s := { s with stats := { s.stats with repeats := s.stats.repeats + 1 } }
+      if h != hash implOut then
+        s := s.report "spec" "C16" "repeated-run-differs" s!"other searches ran in between; first=[{head}] later=[{implOut.take 300}]"
+    | none => s := { s with firstOut := s.firstOut.insert c.raw (hash implOut, (implOut.take 300).toString) }
   s := { s with prevRaw := c.raw, prevOut := implOut }
   if c.tag == "deep" then
     -- large searches: only the implementation's repeated runs are compared (above); no model replay
